@@ -20,6 +20,10 @@ OPS = {'apply_attenuation_lin': 'attLin', 'apply_attenuation_db': 'attDb', 'appl
        'apply_gain_db': 'gainDb', 'add_ase': 'addAse', 'add_nli': 'addNli'}
 
 
+TRX_FIGS = ('raw_osnr_ase', 'raw_osnr_nli', 'raw_snr', 'raw_osnr_ase_01nm', 'raw_snr_01nm',
+            'osnr_ase', 'osnr_nli', 'snr', 'osnr_ase_01nm', 'snr_01nm')
+
+
 def snapshot(si):
     """copy of everything observable about a SpectralInformation (arrays in channel order)"""
     return {'freq': np.array(si._frequency, dtype=float), 'p': np.array(si._pch, dtype=float),
@@ -65,6 +69,8 @@ class Recorder:
         self.op_events = []
         self.loose_ops = []     # ops executed outside any element call
         self.update_snr_args = {}
+        self.update_snr_calls = []   # every Transceiver.update_snr call, in order (see `update_snr` below)
+        self.last_state = {}         # uid -> (index of its last outermost call, snapshot after it)
         self.keep_op_events = keep_op_events
         self._el_depth = 0
         self._op_depth = 0
@@ -124,6 +130,7 @@ class Recorder:
                 try:
                     out = orig(el, spectral_info, *args, **kw)
                     call.after = snapshot(out)
+                    rec.last_state[el.uid] = (len(rec.calls) - 1, call.after)
                     return out
                 except Exception as e:
                     call.error = e
@@ -142,7 +149,13 @@ class Recorder:
 
         def update_snr(trx, *args):
             rec.update_snr_args[trx.uid] = [None if a is None else np.array(a, dtype=float) for a in args]
-            return orig_us(trx, *args)
+            res = orig_us(trx, *args)
+            idx, state = rec.last_state.get(trx.uid, (None, None))
+            with np.errstate(divide='ignore', invalid='ignore'):
+                figs = {nm: np.array(getattr(trx, nm), dtype=float) for nm in TRX_FIGS}
+            rec.update_snr_calls.append({'uid': trx.uid, 'args': rec.update_snr_args[trx.uid], 'call_index': idx,
+                                         'state': state, 'figs': figs})
+            return res
         self._saved.append((E.Transceiver, 'update_snr', orig_us))
         E.Transceiver.update_snr = update_snr
         return self
@@ -235,6 +248,7 @@ def gen_topology(rng, max_roadms=3, raman=False):
                           'out_voa': rng.choice([None, None, 0.0, 1.0, 3.0]),
                           'in_voa': rng.choice([None, None, None, 0.0, 1.0, 2.5]),
                           'tilt': rng.choice([0.0, 0.0, 0.0, -1.0, 1.5]),
+                          'disp': rng.choice([None, None, None, -8.0e-6, -1.67e-5, -2.5e-6, 'pf_neg', 'slope_neg']),
                           'raman': False})
         hops.append(spans)
     if raman:
@@ -247,6 +261,7 @@ def gen_topology(rng, max_roadms=3, raman=False):
         hops[0][0]['con_in'] = rng.choice([0.0, 0.5])    # RamanFiber.__init__ needs explicit connector losses
         hops[0][0]['con_out'] = rng.choice([0.5, 1.0])
         hops[0][0]['fused_after'] = False
+        hops[0][0]['disp'] = None
         return {'hops': hops, 'roadms': [None, None]}
     roadms = []
     for _ in range(n_roadm):
@@ -284,6 +299,7 @@ def _line(spans, d, h):
     seq = spans if d == 'e' else list(reversed(spans))
     for k, sp in enumerate(seq):
         params = {'con_in': sp['con_in'], 'con_out': sp['con_out'], 'att_in': sp['att_in']}
+        params.update(dispersion_params(sp.get('disp')))
         if sp.get('raman'):
             f = nets.fiber(f'fiber {d}{h}.{k}', sp['len'], 'SSMF', **params)
             f['type'] = 'RamanFiber'
@@ -301,6 +317,92 @@ def _line(spans, d, h):
                 op['in_voa'] = sp['in_voa']
             line.append(nets.edfa(f'edfa {d}{h}.{k}', sp['amp'], op))
     return line
+
+
+def dispersion_params(disp):
+    """Fiber params of a normal-dispersion (D < 0) span: single value, per-frequency table, or value + slope that is
+    negative over the whole C+L range"""
+    if disp is None:
+        return {}
+    if disp == 'pf_neg':
+        return {'dispersion_per_frequency': {'value': [-1.2e-5, -0.9e-5, -0.6e-5], 'frequency': [185e12, 191e12, 197e12]}}
+    if disp == 'slope_neg':
+        return {'dispersion': -6.0e-6, 'dispersion_slope': 40.0}
+    return {'dispersion': disp}
+
+
+MB = {'std_medium_gain_multiband': ['std_medium_gain_C', 'std_medium_gain_L'],
+      'std_low_gain_multiband': ['std_low_gain', 'std_low_gain_L'],
+      'std_low_gain_multiband_reduced': ['std_low_gain_reduced', 'std_low_gain_L'],
+      'std_low_gain_multiband_reduced_bis': ['std_low_gain_bis', 'std_low_gain_L_reduced_band'],
+      'std_low_gain_multiband_ter': ['std_low_gain', 'std_low_gain_L_ter']}
+SINGLE = ['std_low_gain', 'std_low_gain_reduced_band', 'std_medium_gain_C', 'std_low_gain_bis', 'std_low_gain_L',
+          'std_low_gain_L_reduced_band', 'std_medium_gain_L']
+LBAND_JSON = {'f_min': 186.55e12, 'f_max': 190.05e12, 'spacing': 50e9}
+CBAND_JSON = {'f_min': 191.25e12, 'f_max': 196.15e12, 'spacing': 50e9}
+_mbnets = {}
+
+
+def mb_amp_json(uid, hop):
+    """amplifier element of a hop: ['mb', variety] explicit multiband amplifier (its `amplifiers` listed C,L – or L,C
+    when hop['l_first']), ['auto'] multiband amplifier left to the auto-design (one amplifier per design band, listed
+    L first by the design), ['ed', variety] single-band Edfa"""
+    kind = hop['amp']
+    if kind[0] == 'mb':
+        amps = [{'type_variety': v, 'operational': {'gain_target': 20.0, 'delta_p': 0, 'out_voa': 1.0, 'tilt_target': 0.0}}
+                for v in MB[kind[1]]]
+        if hop.get('l_first'):
+            amps.reverse()
+        return {'uid': uid, 'type': 'Multiband_amplifier', 'type_variety': kind[1], 'metadata': nets.loc(),
+                'amplifiers': amps}
+    if kind[0] == 'auto':
+        return {'uid': uid, 'type': 'Multiband_amplifier', 'metadata': nets.loc()}
+    return {'uid': uid, 'type': 'Edfa', 'type_variety': kind[1], 'metadata': nets.loc(),
+            'operational': {'gain_target': 18.0, 'delta_p': 0, 'tilt_target': 0, 'out_voa': 0}}
+
+
+def mb_chain_net(hops):
+    """designed ROADM chain on eqpt_config_multiband.json: hop h = amp (fibre amp)* between roadm h and roadm h+1, both
+    directions; cached per description"""
+    key = repr(hops)
+    if key not in _mbnets:
+        from gnpy.tools.json_io import network_from_json
+        from gnpy.tools.worker_utils import designed_network
+        n = len(hops) + 1
+        auto = any(h['amp'][0] == 'auto' for h in hops)
+        els, cxs = [], []
+        for i in range(n):
+            els += [nets.trx(f'trx {i}'), nets.roadm(f'roadm {i}', {'design_bands': [CBAND_JSON, LBAND_JSON]} if auto else None)]
+            cxs += [nets.cx(f'trx {i}', f'roadm {i}'), nets.cx(f'roadm {i}', f'trx {i}')]
+        for h, hop in enumerate(hops):
+            for d, (a, b) in (('e', (h, h + 1)), ('w', (h + 1, h))):
+                ln = []
+                for i in range(hop['namp']):
+                    ln.append(mb_amp_json(f'amp {d}{h}.{i}', hop))
+                    if i < hop['namp'] - 1:
+                        params = {'con_in': 0.5, 'con_out': 0.5}
+                        params.update(dispersion_params(hop.get('disp')))
+                        ln.append(nets.fiber(f'fiber {d}{h}.{i}', hop.get('len', 80.0), 'SSMF', **params))
+                nets.chain(els, cxs, f'roadm {a}', f'roadm {b}', ln)
+        eq = nets.eqpt('eqpt_config_multiband.json')
+        net = network_from_json({'elements': els, 'connections': cxs}, eq)
+        net, _, _ = designed_network(eq, net, source='trx 0', destination=f'trx {n - 1}')
+        if len(_mbnets) > 40:
+            _mbnets.clear()
+        _mbnets[key] = (eq, net)
+    return _mbnets[key]
+
+
+def gen_mb_hops(rng, l_first_share=0.6):
+    """1-2 multiband hops of 3-5 amplifiers (so that ASE has accumulated before the amplifier under test), the
+    amplifier lists in C,L or L,C order or left to the auto-design"""
+    hops = []
+    auto = rng.random() < 0.25
+    for _ in range(rng.choice([1, 1, 2])):
+        amp = ['auto'] if auto else ['mb', rng.choice(list(MB))]
+        hops.append({'amp': amp, 'namp': rng.choice([3, 4, 5]), 'l_first': rng.random() < l_first_share,
+                     'len': rng.choice([80.0, 60.0, 100.0]), 'disp': rng.choice([None, None, None, -8.0e-6, 'pf_neg'])})
+    return hops
 
 
 def designed_from_desc(desc, eq=None):
@@ -381,7 +483,15 @@ def gen_path_case(rng, tier, shuffle=False):
     exs = EX_QUICK if tier == 'quick' else EX_THOROUGH
     k = rng.random()
     sim = None
-    if k < 0.5:
+    mb = None
+    if k < 0.18:
+        # multiband chain, amplifier lists in either order, several dB between the L and C partitions of the launch
+        net = {'mbhops': gen_mb_hops(rng)}
+        n = len(net['mbhops']) + 1
+        a, b = rng.sample(range(n), 2)
+        src, dst = f'trx {a}', f'trx {b}'
+        mb = {'l_offset': rng.choice([-4.0, -6.0, -3.0, 3.0, 5.0]), 'c_offset': rng.choice([0.0, 0.0, 1.0])}
+    elif k < 0.55:
         net = {'desc': gen_topology(rng, max_roadms=3 if tier == 'quick' else 4, raman=rng.random() < 0.12)}
         if any(sp.get('raman') for h in net['desc']['hops'] for sp in h):
             sim = 'raman'
@@ -398,7 +508,7 @@ def gen_path_case(rng, tier, shuffle=False):
             sim = 'raman_ggn' if (tier == 'thorough' and rng.random() < 0.3) else 'raman'
     nch = rng.choice([2, 4, 8, 12, 20]) if sim else rng.choice([1, 2, 5, 12, 24, 40 if tier == 'quick' else 96])
     return {'kind': 'shuffle' if shuffle else 'path', 'net': net, 'src': src, 'dst': dst, 'pick': [rng.random(), rng.random()],
-            'sim': sim, 'uniform_grid': (not shuffle) and rng.random() < 0.2, 'nch': nch,
+            'sim': sim, 'uniform_grid': (not shuffle) and mb is None and rng.random() < 0.2, 'nch': nch, 'mb': mb,
             'cseed': rng.getrandbits(32), 'pmax_dbm': 10.0 if rng.random() < 0.3 else 3.0,
             'order': [rng.random() for _ in range(64)] if shuffle else None}
 
@@ -415,6 +525,9 @@ def setup_path(case):
         if b >= a:
             b += 1
         src, dst = trx[a], trx[b]
+    elif 'mbhops' in case['net']:
+        eq, net = mb_chain_net(case['net']['mbhops'])
+        src, dst = case['src'], case['dst']
     else:
         eq, net = designed_from_desc(case['net']['desc'])
         src, dst = case['src'], case['dst']
@@ -426,7 +539,8 @@ def setup_path(case):
     bands = [(int(b['f_min']), int(b['f_max'])) for b in cr]
     car = []
     if not case['uniform_grid']:
-        if not isinstance(case['net'], str) and any(r and r['variety'] for r in case['net']['desc']['roadms']):
+        if not isinstance(case['net'], str) and 'desc' in case['net'] and \
+                any(r and r['variety'] for r in case['net']['desc']['roadms']):
             # the 'detailed_impairments' ROADM of the stock library defines its impairments for 191.3-196.1 THz only
             bands = [(max(lo, 191_300_000_000_000), min(hi, 196_100_000_000_000)) for lo, hi in bands]
         if case['sim'] == 'raman_ggn':
@@ -436,6 +550,12 @@ def setup_path(case):
             car = gen_carriers(random.Random(case['cseed']), bands, case['nch'], pmin_dbm=-3.0, pmax_dbm=3.0)
         else:
             car = gen_carriers(random.Random(case['cseed']), bands, case['nch'], pmax_dbm=case['pmax_dbm'])
+        if car and case.get('mb'):
+            # a power offset of several dB between the L-band and the C-band partition (offsets are applied on top of the
+            # ROADM target, so they survive the equalisation)
+            for c in car:
+                c['delta_pdb'] = case['mb']['l_offset'] if c['f'] < 190_500_000_000_000 else case['mb']['c_offset']
+                c['tx_power'] = 1e-3
         if car:
             path, req = path_request(eq, net, src, dst, car)
     if not car:
